@@ -192,6 +192,17 @@ def run_case(case, ctx, st):
             L = np.linalg.cholesky(S)
             Z = np.linalg.solve(L, (X - loc).T).T
             ks_marginals(ctx, Z, df, "whitened marginals", "student-t-marginal-not-t")
+            # dependence structure: after whitening with the documented scale the coordinates are uncorrelated, so
+            # Kendall's tau (distribution-free, valid for every df) must vanish: tau = 2/pi * arcsin(rho)
+            if d >= 2:
+                sub = Z[: min(n, 20000)]
+                m = len(sub)
+                for a_ in range(d):
+                    for b_ in range(a_ + 1, d):
+                        tau = stats.kendalltau(sub[:, a_], sub[:, b_]).statistic
+                        se = math.sqrt(2 * (2 * m + 5) / (9 * m * (m - 1))) * 1.5     # 1.5: dependent (elliptical) tails
+                        ztest(ctx, tau / se, f"Kendall tau of whitened coordinates {a_},{b_}", "student-t/dependence",
+                              {"tau": float(tau)})
             if df > 4:
                 check_gaussian_component_moments = X.mean(0)
                 for j in range(d):
